@@ -24,6 +24,10 @@
 (*   wpost  runs k, then post-processes (sees the response, overwrites it) *)
 (*   wtwice runs k twice on the same query, one after the other            *)
 (*   wconc  runs k on two copies concurrently, joins, returns first error  *)
+(*   wkeep  runs k once and KEEPS it (with a copy of the query as it was): *)
+(*          after the caller's Exec has returned (phase "late") every kept *)
+(*          continuation is run again on its copy, as a run of its own     *)
+(*          (tag = keeper's tag o <<1000 + j>>), like cache's lazy update  *)
 (* Built-in actions are invisible to the harness: only harness matchers    *)
 (* ("m"), harness actions ("a") and the wrappers' own marks ("ks" "ke"     *)
 (* "post" "fork" "join") are logged, per run (= per query copy).           *)
@@ -48,7 +52,7 @@ CONSTANTS
     Bug                           \* "none" | deviation switch for the non-vacuity configs
 
 VARIABLES
-    phase,      \* "build" | "exec" | "done"
+    phase,      \* "build" | "exec" | "late" (kept continuations run) | "done"
     bs,         \* sequence being built
     prog,       \* [1..MaxSeq -> Seq(Rule)]
     runs,       \* [tag -> run]; tag = <<0>> for the caller's query, Append(tag, n) for its n-th copy
@@ -56,8 +60,10 @@ VARIABLES
 
 vars == <<phase, bs, prog, runs, reuseOK>>
 
-SimpleOps == {"nop", "set", "drop", "perr", "wstop", "wcont", "wpost", "wtwice", "wconc", "accept", "return"}
-WrapOps == {"wcont", "wpost", "wtwice", "wconc"}
+SimpleOps == {"nop", "set", "drop", "perr", "wstop", "wcont", "wpost", "wtwice", "wconc", "wkeep", "accept", "return"}
+WrapOps == {"wcont", "wpost", "wtwice", "wconc", "wkeep"}
+MultiOps == {"wtwice", "wconc", "wkeep"}
+LateBase == 1000
 Root == <<0>>
 NoResp == -1
 PostCode == 9
@@ -66,7 +72,8 @@ NoErr == [k |-> "none", s |-> 0, r |-> 0, m |-> 0]
 LE(t, s, r, m, v) == [t |-> t, s |-> s, r |-> r, m |-> m, v |-> v]
 Frame(s, pc, mi) == [s |-> s, pc |-> pc, mi |-> mi]
 NewRun(resp, pend) ==
-    [stack |-> <<>>, pend |-> pend, log |-> <<>>, resp |-> resp, err |-> NoErr, st |-> "run", nch |-> 0]
+    [stack |-> <<>>, pend |-> pend, log |-> <<>>, resp |-> resp, err |-> NoErr, st |-> "run", nch |-> 0,
+     keeps |-> <<>>]
 PFrame(op, s, r, k) == [op |-> op, s |-> s, r |-> r, k |-> k, n |-> 0, ph |-> "start", ch |-> <<>>, b |-> <<>>]
 
 ------------------------------------------------------------------------------
@@ -87,7 +94,7 @@ Referenced(s) == s = 1 \/ \E rl \in AllRules : rl.act.op \in {"jump", "goto"} /\
 AddRule ==
     /\ phase = "build" /\ bs <= MaxSeq /\ Len(prog[bs]) < MaxRules /\ Referenced(bs)
     /\ \E ms \in MatcherLists, a \in ActSpace(bs) :
-          /\ a.op \in {"wtwice", "wconc"} => CountOps({"wtwice", "wconc"}) < MaxMulti
+          /\ a.op \in MultiOps => CountOps(MultiOps) < MaxMulti
           /\ a.op = "wconc" => CountOps({"wconc"}) < MaxConc
           /\ prog' = [prog EXCEPT ![bs] = Append(@, [ms |-> ms, act |-> a])]
     /\ UNCHANGED <<phase, bs, runs, reuseOK>>
@@ -131,6 +138,10 @@ StepAct(R, f, a) ==
                                                             Frame(a.arg, 1, 1))]
          [] a.op = "goto"   -> [R EXCEPT !.stack = <<Frame(a.arg, 1, 1)>>]
          [] a.op = "wstop"  -> [R EXCEPT !.log = Append(@, ent), !.stack = <<>>]
+         [] a.op = "wkeep" ->
+                [R EXCEPT !.log = Append(@, ent), !.stack = <<>>,
+                          !.pend = Append(@, [PFrame(a.op, f.s, f.pc, adv) EXCEPT !.ch = <<Len(R.keeps) + 1>>]),
+                          !.keeps = Append(@, [s |-> f.s, r |-> f.pc, k |-> adv, resp |-> R.resp, b |-> 0, e |-> 0])]
          [] a.op \in WrapOps ->
                 [R EXCEPT !.log = Append(@, ent), !.stack = <<>>,
                           !.pend = Append(@, PFrame(a.op, f.s, f.pc, adv))]
@@ -160,12 +171,18 @@ StepPend(R) ==
     LET np == Len(R.pend)
         P == R.pend[np]
         here == Len(R.log) + 1
+        \* a keeping wrapper remembers where its own (synchronous) run of k starts and ends in the log
+        KeepMark(ks, fld) == IF P.op = "wkeep"
+                               THEN [ks EXCEPT ![P.ch[1]] = IF fld = "b" THEN [@ EXCEPT !.b = here] ELSE [@ EXCEPT !.e = here]]
+                               ELSE ks
     IN CASE P.ph = "start" ->
               [R EXCEPT !.log = Append(@, LE("ks", P.s, P.r, 1, "")), !.stack = P.k,
-                        !.pend[np].n = 1, !.pend[np].ph = "run", !.pend[np].b = <<here>>]
+                        !.pend[np].n = 1, !.pend[np].ph = "run", !.pend[np].b = <<here>>,
+                        !.keeps = KeepMark(@, "b")]
          [] P.ph = "run" ->
-              [R EXCEPT !.log = Append(@, LE("ke", P.s, P.r, IF P.op = "child" THEN R.resp ELSE P.n, "")),
-                        !.pend[np].ph = "after", !.pend[np].b = Append(@, here)]
+              [R EXCEPT !.log = Append(@, LE("ke", P.s, P.r, IF P.op \in {"child", "late"} THEN R.resp ELSE P.n, "")),
+                        !.pend[np].ph = "after", !.pend[np].b = Append(@, here),
+                        !.keeps = KeepMark(@, "e")]
          [] P.ph = "after" ->
               CASE P.op = "wpost" ->
                      [R EXCEPT !.log = Append(@, LE("post", P.s, P.r, R.resp, "")), !.resp = PostCode,
@@ -190,15 +207,28 @@ Runnable(tag) ==
     /\ Sched = "det" => \A t \in DOMAIN runs :
            (Len(t) = Len(tag) /\ Pop(t) = Pop(tag) /\ Top(t) < Top(tag)) => runs[t].st = "done"
 
+IsLate(tag) == Top(tag) > LateBase
+\* a kept continuation run later logged what the keeper's own run of it logged
+LateEqual(tag) ==
+    LET keeper == runs[Pop(tag)]
+        K == keeper.keeps[Top(tag) - LateBase]
+        L == runs[tag]
+        sync == Seg(keeper.log, K.b, IF K.e > 0 THEN K.e ELSE Len(keeper.log) + 1)
+        late == Seg(L.log, 1, IF L.err.k = "none" THEN Len(L.log) ELSE Len(L.log) + 1)
+    IN sync = late /\ (L.err.k = "none") = (K.e > 0)
+
+Running == phase \in {"exec", "late"}
+
 Local(tag) ==
     LET R == runs[tag] IN
-    /\ phase = "exec" /\ Runnable(tag) /\ ~NeedsFork(R)
+    /\ Running /\ Runnable(tag) /\ ~NeedsFork(R)
     /\ IF R.stack # <<>>
          THEN runs' = [runs EXCEPT ![tag] = StepSeq(R)] /\ UNCHANGED reuseOK
          ELSE IF R.pend # <<>>
                 THEN /\ runs' = [runs EXCEPT ![tag] = StepPend(R)]
                      /\ reuseOK' = (reuseOK /\ TwiceEqual(R))
-                ELSE runs' = [runs EXCEPT ![tag].st = "done"] /\ UNCHANGED reuseOK
+                ELSE /\ runs' = [runs EXCEPT ![tag].st = "done"]
+                     /\ reuseOK' = (reuseOK /\ (IsLate(tag) => LateEqual(tag)))
     /\ UNCHANGED <<phase, bs, prog>>
 
 Fork(tag) ==
@@ -208,7 +238,7 @@ Fork(tag) ==
         c1 == Append(tag, R.nch + 1)
         c2 == Append(tag, R.nch + 2)
         child == NewRun(R.resp, <<PFrame("child", P.s, P.r, P.k)>>)
-    IN /\ phase = "exec" /\ Runnable(tag) /\ NeedsFork(R)
+    IN /\ Running /\ Runnable(tag) /\ NeedsFork(R)
        /\ runs' = [t \in DOMAIN runs \cup {c1, c2} |->
                      IF t = tag THEN [R EXCEPT !.st = "wait", !.nch = @ + 2,
                                                !.log = Append(@, LE("fork", P.s, P.r, 0, "")),
@@ -234,7 +264,7 @@ Join(tag) ==
         c1 == P.ch[1]
         c2 == P.ch[2]
         e == IF runs[c1].err.k # "none" THEN runs[c1].err ELSE runs[c2].err
-    IN /\ phase = "exec" /\ R.st = "wait"
+    IN /\ Running /\ R.st = "wait"
        /\ runs[c1].st = "done" /\ (runs[c2].st = "done" \/ Bug = "join_one")
        /\ runs' = [runs EXCEPT ![tag] =
                      IF e.k # "none"
@@ -244,8 +274,30 @@ Join(tag) ==
        /\ reuseOK' = (reuseOK /\ SubtreesEqual(c1, c2))
        /\ UNCHANGED <<phase, bs, prog>>
 
+\* the caller's Exec has returned; kept continuations are run from now on
 Finish ==
     /\ phase = "exec" /\ runs[Root].st = "done"
+    /\ phase' = "late"
+    /\ UNCHANGED <<bs, prog, runs, reuseOK>>
+
+AllRunsDone == \A t \in DOMAIN runs : runs[t].st = "done"
+LateTag(tag, j) == Append(tag, LateBase + j)
+
+LateStart(tag, j) ==
+    /\ phase = "late" /\ runs[tag].st = "done"
+    /\ j \in 1..Len(runs[tag].keeps) /\ LateTag(tag, j) \notin DOMAIN runs
+    /\ Sched = "det" => AllRunsDone
+    /\ LET K == runs[tag].keeps[j]
+       IN runs' = [t \in DOMAIN runs \cup {LateTag(tag, j)} |->
+                     IF t = LateTag(tag, j)
+                       THEN NewRun(K.resp, <<PFrame("late", K.s, K.r,
+                                                    IF Bug = "late_drops_return" THEN <<Top(K.k)>> ELSE K.k)>>)
+                       ELSE runs[t]]
+    /\ UNCHANGED <<phase, bs, prog, reuseOK>>
+
+FinishLate ==
+    /\ phase = "late" /\ AllRunsDone
+    /\ \A t \in DOMAIN runs : \A j \in 1..Len(runs[t].keeps) : LateTag(t, j) \in DOMAIN runs
     /\ phase' = "done"
     /\ UNCHANGED <<bs, prog, runs, reuseOK>>
 
@@ -256,8 +308,8 @@ Init ==
     /\ reuseOK = TRUE
 
 Next ==
-    \/ AddRule \/ Seal \/ Start \/ Finish
-    \/ \E tag \in DOMAIN runs : Local(tag) \/ Fork(tag) \/ Join(tag)
+    \/ AddRule \/ Seal \/ Start \/ Finish \/ FinishLate
+    \/ \E tag \in DOMAIN runs : Local(tag) \/ Fork(tag) \/ Join(tag) \/ \E j \in 1..9 : LateStart(tag, j)
 
 Spec == Init /\ [][Next]_vars
 FairSpec == Spec /\ WF_vars(Next)
@@ -319,7 +371,7 @@ Quiescent == phase = "done" =>
 C06Inv == ActionNeedsMatch /\ ShortCircuit /\ ErrorAborts /\ InOrder /\ ContinuationReusable /\ Quiescent
 
 TypeOK ==
-    /\ phase \in {"build", "exec", "done"}
+    /\ phase \in {"build", "exec", "late", "done"}
     /\ bs \in 1..(MaxSeq + 1)
     /\ \A tag \in DOMAIN runs : runs[tag].st \in {"run", "wait", "done"}
 
